@@ -43,14 +43,20 @@ class Cell(Process):
 
 
 class DivDirector(Process):
-    defaults = {'script': {}}
+    """issues the _divide updates; like an environment process it declares, for
+    every agent, a variable env/m that the agents' own processes do not declare"""
+    defaults = {'script': {}, 'env_divider': None}
 
     def __init__(self, parameters=None):
         super().__init__(parameters)
         self.n = 0
 
     def ports_schema(self):
-        return {'agents': {'*': {}}}
+        sub = {}
+        if self.parameters['env_divider'] is not None:
+            sub = {'env': {'m': {'_default': 1, '_divider': self.parameters['env_divider'],
+                                 '_emit': True}}}
+        return {'agents': {'*': sub}}
 
     def next_update(self, timestep, states):
         upd = self.parameters['script'].get(self.n)
@@ -78,7 +84,7 @@ def get(d, path):
 
 
 def run_division(vars_, values, path=('st',), explicit1=None, seed=0, generations=1,
-                 ticks_after=2, mutate=False):
+                 ticks_after=2, mutate=False, env_divider=None, env_value=None):
     """Divide mother 'm' (variables vars_ holding values) at tick 1; optionally
     divide daughter 'd1' again at tick 3. Returns the engine and snapshots."""
     random.seed(seed)
@@ -88,13 +94,16 @@ def run_division(vars_, values, path=('st',), explicit1=None, seed=0, generation
     if generations == 2:
         script[2] = {'_divide': {'mother': 'd1', 'daughters': [
             daughter('d11', vars_, path), daughter('d12', vars_, path)]}}
-    procs = {'director': DivDirector({'script': script}),
+    procs = {'director': DivDirector({'script': script, 'env_divider': env_divider}),
              'agents': {'m': {'p': Cell({'vars': vars_})},
                         'z': {'p': Cell({'vars': vars_})}}}
     topo = {'director': {'agents': ('agents',)},
             'agents': {'m': {'p': {'st': path}}, 'z': {'p': {'st': path}}}}
     init = {'agents': {'m': nest(path, copy.deepcopy(values)),
                        'z': nest(path, copy.deepcopy(values))}}
+    if env_divider is not None:
+        init['agents']['m']['env'] = {'m': env_value}
+        init['agents']['z']['env'] = {'m': env_value}
     eng = Engine(processes=procs, topology=topo, initial_state=init,
                  display_info=False, emitter='null')
     snaps = []
@@ -133,7 +142,8 @@ def check_scalar(rep, row, C, seeds):
             case = {'divider': d, 'v': v, 'path': list(path), 'seed': seed}
             try:
                 eng, snaps = run_division(vars_, {'a': v, 'n': 9, 'w': 2}, path=path,
-                                          explicit1=nest(path, {'w': 77}), seed=seed)
+                                          explicit1=nest(path, {'w': 77}), seed=seed,
+                                          env_divider=div, env_value=v)
             except Exception as e:
                 viol(rep, 'division raised %r' % (e,), case)
                 return
@@ -148,6 +158,13 @@ def check_scalar(rep, row, C, seeds):
             if pair not in outs or type(a1) not in (int, np.int64, np.int32):
                 viol(rep, 'divider %s turned %r into %r, allowed %s' % (d, v, (a1, a2), sorted(outs)),
                      case)
+                return
+            # a variable declared only by a process outside the compartment (through
+            # a glob port) is divided like any other
+            e1, e2 = s['d1']['env']['m'], s['d2']['env']['m']
+            if (int(e1), int(e2)) not in outs:
+                viol(rep, 'variable declared by an outer glob port: divider %s turned %r into '
+                     '%r, allowed %s' % (d, v, (e1, e2), sorted(outs)), case)
                 return
             # null divider: the variable is skipped, the default completes it
             if get(s['d1'], path)['n'] != 4 or get(s['d2'], path)['n'] != 4:
@@ -168,6 +185,11 @@ def check_scalar(rep, row, C, seeds):
                     viol(rep, 'daughter %s changed beyond its own ticks: %r -> %r'
                          % (dk, get(s[dk], path), get(last[dk], path)), case)
                     return
+            if last['d1']['env'] != s['d1']['env'] or last['d2']['env'] != s['d2']['env'] \
+                    or last['z']['env'] != {'m': v}:
+                viol(rep, 'environment-declared variables changed after the division: %r %r %r'
+                     % (last['d1']['env'], last['d2']['env'], last['z']['env']), case)
+                return
             zexp = {'a': v, 'n': 9, 'w': 2, 'tick': len(snaps)}
             if get(last['z'], path) != zexp:
                 viol(rep, 'the sibling compartment changed: %r, expected %r'
@@ -280,6 +302,26 @@ def check_special(rep, table_rows):
     if got != ({'x': 3, 'y': 5}, {'x': 3, 'y': 5}):
         viol(rep, 'branch-level set divider gave %r, expected copies of the branch' % (got,),
              {'divider': 'branch-level set over zero leaves'})
+    # ... and an explicit state for one daughter does not leak into the other
+    rep.evaluations += 1
+    script2 = {0: {'_divide': {'mother': 'm', 'daughters': [
+        {'key': 'd1', 'processes': {'p': BranchCell()}, 'topology': {'p': {'st': ('st',)}},
+         'initial_state': {'st': {'br': {'x': 77}}}},
+        {'key': 'd2', 'processes': {'p': BranchCell()}, 'topology': {'p': {'st': ('st',)}},
+         'initial_state': {}}]}}}
+    eng = Engine(processes={'director': DivDirector({'script': script2}),
+                            'agents': {'m': {'p': BranchCell()}}},
+                 topology={'director': {'agents': ('agents',)},
+                           'agents': {'m': {'p': {'st': ('st',)}}}},
+                 initial_state={'agents': {'m': {'st': {'br': {'x': 3, 'y': 5}}}}},
+                 display_info=False, emitter='null')
+    eng.update(1)
+    s = strip(eng.state.get_value())['agents']
+    got = (s.get('d1', {}).get('st', {}).get('br'), s.get('d2', {}).get('st', {}).get('br'))
+    if got != ({'x': 77, 'y': 5}, {'x': 3, 'y': 5}):
+        viol(rep, 'explicit state of daughter d1 under a branch-level set divider: daughters '
+             'hold %r, expected ({x: 77, y: 5}, {x: 3, y: 5})' % (got,),
+             {'divider': 'branch-level set', 'explicit': 'd1 br/x=77'})
     # two generations: the second division divides what the first produced
     by = {(r['d'], r['v']): {tuple(p) for p in r['outs']} for r in table_rows}
     for seed in range(4):
